@@ -171,7 +171,7 @@ def monitor_c03(ctx):
     a = _run('c03', 'c03', pays, 'container op sequences around the cap + concatenation / str->list witnesses: length of every list / dict '
              'returned by a node or reachable from result / names vs max(10000, longest host container or str, longest literal)')
     b = _run('c03_adders', 'c03_adders', [{'stmts': [['push(c, 1)', ['list']], ['c.push(1)', ['list']], ['insert(c, 0, 1)', ['list']], ['c[0] = 1', ['list', 'dict']],
-                                                      ['c["k"] = 1', ['dict']], ['c[0] += 1', ['list']], ['c["0"] += 1', ['dict']],
+                                                      ['c["k"] = 1', ['dict']], ['c[5] = 1', ['dict']], ['c[True] = 0', ['dict']], ['c[1.0] = 0', ['dict']], ['c[0] += 1', ['list']], ['c["0"] += 1', ['dict']],
                                                       ['push(c, 1, 2, 3)', []], ['c | push(1)', ['list']], ['c.push(1, 2)', []],
                                                       ['insert(c, 0, 1, 2)', []], ['c | push(1, 2, 3, 4, 5)', []],
                                                       # a new key through the compound form; the adders reached under another name, as a value, via a host callback
@@ -212,6 +212,18 @@ def monitor_c04(ctx):
                 ['0 ** 0', '1 / 3', '1.5 * (2 / 7)'], ['10 ** 1000000', '1 / 3'], ['1 / 0', '1 / 3'], ['round(1, 5000)', '1 / 3', 'a * a * a'],
                 ['int("x")', '1 / 3'], ['max([])', '1 / 7'], ['float("1e400")', '1 / 3'], ['[1, 2][5]', '1 / 3'], ['2 ** 0.5', '1 / 3']):
         pays.append({'poison_seq': seq})
+    # one node, operands of other types each time it is evaluated (cached trees across evaluations, lambda bodies within one)
+    # (`*=` is left out: it uses the native operator whatever came before - finding D12)
+    for src in ('a * b', 'a ** b', 'f = (x, y) => x * y; f(a, b)', '[a * b, a * b]', 'a * b * b', 'f = (x, y) => x ** y; f(a, b)'):
+        for first in ({'a': 'd2', 'b': 'd3'}, {'a': 'f', 'b': 'd3'}, {'a': 't', 'b': 'i3'}):
+            for then in ({'a': 's', 'b': 'i3'}, {'a': 'big', 'b': 'big'}, {'a': 'l', 'b': 'i3'}, {'a': 'i3', 'b': 's'}, {'a': 'bigd', 'b': 'bigd'},
+                         {'a': 's', 'b': 't'}, {'a': 'big', 'b': 'i3'}):
+                pays.append({'typed_seq': [[src, first], [src, first], [src, then]]})
+    for body in ('p[0] * p[1]', 'p[0] ** p[1]', '[p[0] * p[1]][0]', 'apply((x, y) => x * y, p[0], p[1])'):
+        for rows in ('[[2, 3], [s, i3]]', '[[2, 3], [2.5, 4], [big, big]]', '[[2, 3], [l, i3]]', '[[t, i3], [i3, s]]', '[[2, 3], [bigd, bigd]]'):
+            binds = {'s': 's', 'i3': 'i3', 'big': 'big', 'l': 'l', 't': 't', 'bigd': 'bigd'}
+            pays.append({'typed_seq': [[f'map({rows}, p => try_apply(w => {body}, 0))', binds], [f'map({rows}, p => {body})', binds],
+                                       [f'f = p => {body}; r = []; map({rows}, p => try_apply(w => push(r, f(p)), 0)); r', binds]]})
     return _run('c04', 'c04', pays, 'numeric expression trees / compound assignments / numeric builtins over host ints, bools, Decimals: type of the '
                 'result of * ** *=, digit count of every arithmetic node and numeric builtin vs max(28, 1 + widest numeric argument)')
 
@@ -386,6 +398,8 @@ def monitor_c10(ctx):
     pays = [{'line': l} for l in _eval_lines_from(ctx)]
     for c in gens2.scope_cases(ctx['seed'], sz(ctx, 1500, 10000)):
         pays.append({'line': c[0]})
+    for c in gens2.bare_scope_cases(ctx['seed'], 200):
+        pays.append({'line': c[0], 'must_bind': c[2]})
     a = _run('c10', 'c10', pays, 'scope programs: identity and contents of FUNCTIONS before/after; no name that is not assigned at top level '
              'may appear in the host mapping')
     b = _run('c10_noname', 'c10_noname', [{'srcs': ['len = 3', 'zz = 1', 'f = v => v', 'len([1, 2])']}, {'srcs': ['x = 5', 'x']}],
